@@ -39,6 +39,7 @@ class Prop(common.PropertyCheck):
                 # integer file whose time channel is a wrapping counter (first/last events are those of the event list, not of the clock)
                 dt = 'I'
                 rows[0].update({'iid': 'FC001', 'time_order': rng.choice(['wrap', 'random'])})
+                rows[0]['units'][0] = rng.choice(['RFI', 'a.u.']); rows[0]['units'][1] = rng.choice(['Channel', 'RFI'])     # channels of resolution 1024 and 256
                 rewrite = True
             elif i % 3 == 1:
                 # double-precision file with events outside the declared range (no saturation gate for floating-point data)
@@ -55,10 +56,11 @@ class Prop(common.PropertyCheck):
                 rows[-1].update({'gf': rng.choice([1.0, 1]), 'scatter_out': True, 'nonneg': 'zero'})
                 rows[-1]['units'][1] = rng.choice(['a.u.', 'RFI', 'Channel'])
             yield {'seed': rng.randrange(1 << 30), 'datatype': dt, 'ninst': ninst,
-                   'scatter_gain': rng.choice([None, None, 2, 0.5]), 'rows': rows, 'rewrite': rewrite}
+                   'scatter_gain': rng.choice([None, None, 2, 0.5]), 'rows': rows, 'rewrite': rewrite, 'mixed_res': dt == 'I' and i % 3 == 0}
 
     def run_impl(self, case):
-        ex = excelgen.Experiment(case['seed'], datatype=case['datatype'], instruments=case['ninst'], scatter_gain=case['scatter_gain'])
+        ex = excelgen.Experiment(case['seed'], datatype=case['datatype'], instruments=case['ninst'], scatter_gain=case['scatter_gain'],
+                                 mixed_res=case.get('mixed_res', False))
         try:
             return self._run(case, ex)
         except Exception as e:
